@@ -109,6 +109,18 @@ def dec (n : Nat) : Bytes :=
 termination_by n
 decreasing_by omega
 
+/-- year of the 400-year era (`0..399`, years starting on 1 March) of the era day `doe`
+(`0..146096`) -/
+def yoeOf (doe : Nat) : Nat := (doe - doe / 1460 + doe / 36524 - doe / 146096) / 365
+
+/-- era day on which year-of-era `yoe` starts -/
+def yearStart (yoe : Nat) : Nat := 365 * yoe + yoe / 4 - yoe / 100
+
+/-- month (1..12) and day of month of the `doy`-th day (`0..365`) of a year starting on 1 March -/
+def mdOfDoy (doy : Nat) : Nat × Nat :=
+  let mp := (5 * doy + 2) / 153
+  (if mp < 10 then mp + 3 else mp - 9, doy - (153 * mp + 2) / 5 + 1)
+
 /-- proleptic Gregorian civil date `(year, month 1..12, day 1..31)` of the day number
 `z` counted from 1970-01-01 (what `gmtime` yields in `tm_year+1900, tm_mon+1, tm_mday`
 for `t = 86400*z + s`, `0 ≤ s < 86400`).  Days are shifted to the era starting
@@ -117,23 +129,19 @@ def civilFromDays (z : Nat) : Nat × Nat × Nat :=
   let z := z + 719468
   let era := z / 146097
   let doe := z % 146097
-  let yoe := (doe - doe / 1460 + doe / 36524 - doe / 146096) / 365
-  let doy := doe - (365 * yoe + yoe / 4 - yoe / 100)
-  let mp := (5 * doy + 2) / 153
-  let d := doy - (153 * mp + 2) / 5 + 1
-  let m := if mp < 10 then mp + 3 else mp - 9
+  let yoe := yoeOf doe
+  let md := mdOfDoy (doe - yearStart yoe)
   let y := yoe + era * 400
-  (if m ≤ 2 then y + 1 else y, m, d)
+  (if md.1 ≤ 2 then y + 1 else y, md.1, md.2)
 
-/-- inverse direction: day number (from 0000-03-01, i.e. *not yet* shifted back by
-719468, so that it is a natural number for every date of year ≥ 0 after February) -/
+/-- inverse direction: day number counted from 0000-03-01 (i.e. *not* shifted back by
+719468, so that it is a natural number) -/
 def eraDaysFromCivil (y m d : Nat) : Nat :=
   let y := if m ≤ 2 then y - 1 else y
   let era := y / 400
   let yoe := y % 400
   let doy := (153 * (if m > 2 then m - 3 else m + 9) + 2) / 5 + d - 1
-  let doe := yoe * 365 + yoe / 4 - yoe / 100 + doy
-  era * 146097 + doe
+  era * 146097 + (yearStart yoe + doy)
 
 def isLeap (y : Nat) : Bool := y % 4 = 0 ∧ (y % 100 ≠ 0 ∨ y % 400 = 0)
 
@@ -146,7 +154,7 @@ def slash : UInt8 := 47
 
 /-- the subpath `daily_output` derives from a UTC timestamp (seconds since the epoch) -/
 def datePath (ts : Nat) : Bytes :=
-  let (y, m, d) := civilFromDays (ts / 86400)
-  dec y ++ [slash] ++ dec m ++ [slash] ++ dec d
+  let c := civilFromDays (ts / 86400)
+  dec c.1 ++ [slash] ++ dec c.2.1 ++ [slash] ++ dec c.2.2
 
 end YgmVerif.Out
